@@ -461,7 +461,7 @@ def c08_walk(ops, lines):
             for w in it[1].split()[1:]:
                 fd, _, ev = w.partition(":")
                 ready.append((int(fd), int(ev) if ev else 1))
-            steps.append(("iter-begin", n, ready))
+            steps.append(("iter-begin", n, ready, it[2].wait))
             for kind, i, extra, nested in it[2].cbs:
                 steps.append(("cb", kind, i, extra))
                 ret = 0
@@ -509,6 +509,14 @@ def c08_oracle(ops, lines, slack=4):
     it_no = 0
     cur = None              # running callback (kind, id, record)
     cbs_after_stop = 0
+    cur_stop_ctx_done = False
+    debt = {}               # (priority, id) -> successful deletes not yet attributed to one of several duplicates
+    tainted = set()         # descriptor numbers registered twice at the same time (closed without poll_del and
+                            # re-used): which of the two registrations poll_mod/poll_del/the kernel then mean is
+                            # decided by slot order; the statement does not cover it and the oracle stays out
+    queued_before = None    # records known to sit in a job list at the start of the previous iteration
+    must_not_sleep = None   # (description) set at the end of an iteration that leaves such a record queued
+    may_wait_50 = False
     alive = lambda: sum(len(v) for v in jobs.values()) + len([t for t in tlist if t["state"] == "pending"]) + \
         len([f for f in fds if f["watched"]]) + sum(s["owed"] for s in allsigs if s["live"]) + 1
 
@@ -529,7 +537,7 @@ def c08_oracle(ops, lines, slack=4):
                 if p <= HIGH:
                     if res != "0":
                         return "job_add %d %d returned %s" % (p, i, res)
-                    jobs[p].append([i, it_no])
+                    jobs[p].append([i, it_no, (it_no + 1) if (ctx or not in_run) else (it_no + 2)])
                 elif res != "EINVAL":
                     return "job_add with priority %d returned %s" % (p, res)
             elif o == "job_del":
@@ -539,12 +547,18 @@ def c08_oracle(ops, lines, slack=4):
                         return "job_del with priority %d returned %s" % (p, res)
                     continue
                 pend = [j for j in jobs[p] if j[0] == i]
+                real = len(pend) - debt.get((p, i), 0)
                 if res == "0":
-                    if not pend:
+                    if real <= 0:
                         return "job_del %d %d returned 0 but no such job is pending" % (p, i)
-                    jobs[p].remove(pend[0])
+                    if len(pend) == 1:
+                        jobs[p].remove(pend[0])
+                    else:
+                        # several pending jobs with the same (priority, function, data) key: the statement does
+                        # not say which one goes; one of them must never run
+                        debt[(p, i)] = debt.get((p, i), 0) + 1
                 elif res == "ENOENT":
-                    if pend:
+                    if real > 0:
                         return "job_del %d %d returned ENOENT but the job is pending" % (p, i)
                 else:
                     return "job_del returned %s" % res
@@ -589,15 +603,17 @@ def c08_oracle(ops, lines, slack=4):
                     if res != "0":
                         return "poll_add returned %s" % res
                     rec = {"fd": fd, "id": i, "ev": ev, "p": p, "watched": True, "ready": 0, "since": None}
+                    if any(f["fd"] == fd and f["watched"] for f in fds):
+                        tainted.add(fd)
                     fds.append(rec)
                     kernel[fd] = rec
             elif o == "poll_mod":
                 p, fd, ev, i = int(t[1]), int(t[2]), int(t[3]), int(t[4])
                 w = [f for f in fds if f["fd"] == fd and f["watched"]]
-                if res == "0" and w:
-                    # the first matching registration is modified
+                if w and fd not in tainted:
+                    if res == "0" and w[0]["ev"] != ev and fd in openfds:
+                        kernel[fd] = w[0]
                     w[0]["id"], w[0]["ev"], w[0]["p"] = i, ev, p
-                    w[0]["anyid"] = True
             elif o == "poll_del":
                 fd = int(t[1])
                 w = [f for f in fds if f["fd"] == fd and f["watched"]]
@@ -651,14 +667,26 @@ def c08_oracle(ops, lines, slack=4):
                 if in_run:
                     stop_seen = True
                     cbs_after_stop = 0
+                    if ctx is None:
+                        cur_stop_ctx_done = False      # requested while parked: at most one more callback
         elif st[0] == "iter-begin":
             it_no = st[1]
             if not in_run:
                 in_run = True
                 stop_seen = False
+                must_not_sleep = None
+            # the loop never goes to sleep while an item it has already queued for dispatch is waiting
+            if must_not_sleep is not None and st[3] is not None and st[3] != "0":
+                return "iteration %d: the loop went to sleep (epoll_wait timeout %s) although %s is queued for dispatch" % (
+                    it_no, st[3], must_not_sleep)
+            must_not_sleep = None
+            seen_fd = set()
             for fd, ev in st[2]:
+                if fd in seen_fd:
+                    continue            # the kernel reports a descriptor once
+                seen_fd.add(fd)
                 r = kernel.get(fd)
-                if r is not None and r["watched"]:
+                if r is not None and r["watched"] and fd not in tainted:
                     bits = ev & (r["ev"] % 32 | 8 | 16 | (8 if r["ev"] & 32 else 0))
                     if bits:
                         r["ready"] |= bits
@@ -676,6 +704,21 @@ def c08_oracle(ops, lines, slack=4):
                         s["owed"] += 1
                         if s["since"] is None:
                             s["since"] = it_no
+            # what is known to sit in a job list during this iteration (see the end of the iteration)
+            queued_before = []
+            for p in jobs:
+                for j in jobs[p]:
+                    if j[2] <= it_no:
+                        queued_before.append(("job %d" % j[0], "job", j))
+            for tr in tlist:
+                if tr["state"] == "pending" and tr["expiry"] < now:
+                    queued_before.append(("timer %d" % tr["id"], "timer", tr))
+            for f in fds:
+                if f["watched"] and f["since"] is not None and f["fd"] not in tainted:
+                    queued_before.append(("descriptor %d (callback %d)" % (f["fd"], f["id"]), "fd", f))
+            for s in allsigs:
+                if s["live"] and s["owed"] > 0:
+                    queued_before.append(("a delivery of signal %d for callback %d" % (s["sig"], s["id"]), "sig", s))
         elif st[0] == "cb":
             kind, i, extra = st[1], st[2], st[3]
             if stop_seen:
@@ -683,15 +726,28 @@ def c08_oracle(ops, lines, slack=4):
                 if cur_stop_ctx_done:
                     return "iteration %d: callback %s %d dispatched after the loop was stopped" % (it_no, kind, i)
             if kind == "job":
-                heads = [p for p in LEVELS if jobs[p] and jobs[p][0][0] == i]
-                if not heads:
-                    anyp = [p for p in LEVELS if any(j[0] == i for j in jobs[p])]
+                cands = []
+                for p in LEVELS:
+                    d = dict(debt)
+                    k = 0
+                    while k < len(jobs[p]) and jobs[p][k][0] != i and d.get((p, jobs[p][k][0]), 0) > 0:
+                        d[(p, jobs[p][k][0])] -= 1          # a deleted duplicate: skipped
+                        k += 1
+                    if k < len(jobs[p]) and jobs[p][k][0] == i:
+                        n_same = len([j for j in jobs[p] if j[0] == i])
+                        if n_same - debt.get((p, i), 0) > 0:
+                            cands.append((k, jobs[p][k][1], p))
+                if not cands:
+                    anyp = [p for p in LEVELS if len([j for j in jobs[p] if j[0] == i]) - debt.get((p, i), 0) > 0]
                     if anyp:
                         return "iteration %d: job %d ran before job %d that was added earlier at priority %d" % (
                             it_no, i, jobs[anyp[0]][0][0], anyp[0])
                     return "iteration %d: job callback %d invoked but no such job is pending (ran twice or after a successful delete)" % (it_no, i)
-                heads.sort(key=lambda p: jobs[p][0][1])      # same id pending on two levels: the older one
-                jobs[heads[0]].pop(0)
+                cands.sort()                                   # fewest skipped, then the older one
+                k, _, p = cands[0]
+                for j in jobs[p][:k]:
+                    debt[(p, j[0])] -= 1
+                del jobs[p][:k + 1]
             elif kind == "timer":
                 pend = [tr for tr in tlist if tr["id"] == i and tr["state"] == "pending"]
                 if not pend:
@@ -705,14 +761,21 @@ def c08_oracle(ops, lines, slack=4):
                 rev = int(extra[1])
                 fdn = int(fd) if fd != "P" else -1
                 w = [f for f in fds if f["fd"] == fdn and f["watched"] and f["id"] == i]
-                if not w:
+                if fdn in tainted:
+                    for f in fds:
+                        if f["fd"] == fdn and f["watched"]:
+                            f["running"] = True
+                            f["ready"] = 0
+                            f["since"] = None
+                elif not w:
                     return "iteration %d: descriptor callback %d (fd %s) invoked but it is not watched (deleted, or returned a negative value)" % (it_no, i, fd)
-                if w[0]["ready"] == 0 or (rev & ~w[0]["ready"]):
+                elif w[0]["ready"] == 0 or (rev & ~w[0]["ready"]):
                     return "iteration %d: descriptor callback %d invoked with events %d but the descriptor reported %d" % (
                         it_no, i, rev, w[0]["ready"])
-                w[0]["ready"] = 0
-                w[0]["since"] = None
-                w[0]["running"] = True
+                if w and fdn not in tainted:
+                    w[0]["ready"] = 0
+                    w[0]["since"] = None
+                    w[0]["running"] = True
             elif kind == "sig":
                 sg = int(extra[0])
                 cand = [s for s in allsigs if s["live"] and s["owed"] > 0 and (s["id"] == i or i in s.get("oldids", []))]
@@ -727,7 +790,7 @@ def c08_oracle(ops, lines, slack=4):
             if kind == "fd":
                 for f in fds:
                     if f.pop("running", None):
-                        if ret < 0:
+                        if ret < 0 and f["fd"] not in tainted:
                             f["watched"] = False
             elif kind == "sig":
                 for s in allsigs:
@@ -755,17 +818,29 @@ def c08_oracle(ops, lines, slack=4):
                 for p in jobs:
                     for j in jobs[p]:
                         j[1] = it_no
+                        j[2] = it_no + 1
+                must_not_sleep = None
             elif end == "done":
+                # an item that was queued for dispatch during this iteration and is still queued: the next
+                # epoll_wait must not block (remaining_todo > 0, or the timer poll has just queued it)
+                for name, kind, r in (queued_before or []):
+                    still = ((kind == "job" and any(r is j and not debt.get((p, j[0])) for p in jobs for j in jobs[p])) or
+                             (kind == "timer" and r["state"] == "pending") or
+                             (kind == "fd" and r["watched"] and r["since"] is not None) or
+                             (kind == "sig" and r["live"] and r["owed"] > 0))
+                    if still:
+                        must_not_sleep = name
+                        break
                 b = bound()
                 for p in jobs:
                     for j in jobs[p]:
-                        if it_no - j[1] > b + 1:
+                        if it_no - j[1] > b + 1 and not debt.get((p, j[0])):
                             return "job %d (priority %d) has been pending for %d iterations of a running loop" % (j[0], p, it_no - j[1])
                 for tr in tlist:
                     if tr["state"] == "pending" and tr["since"] is not None and it_no - tr["since"] > b + 1:
                         return "timer %d expired %d iterations ago and has not fired" % (tr["id"], it_no - tr["since"])
                 for f in fds:
-                    if f["watched"] and f["since"] is not None and kernel.get(f["fd"]) is f and it_no - f["since"] > b:
+                    if f["watched"] and f["fd"] not in tainted and f["since"] is not None and kernel.get(f["fd"]) is f and it_no - f["since"] > b:
                         return "descriptor %d (callback %d) has been ready for %d iterations without a callback" % (
                             f["fd"], f["id"], it_no - f["since"])
                 for s in allsigs:
@@ -950,5 +1025,181 @@ def gen_c08_case(rng, double_add=True, sig_multi=True):
     # let the queues drain: nothing new from outside
     for t in range(rng.randint(0, 6)):
         ops.append("advance %d" % TICK)
+        ops.append("iterate")
+    return ops
+
+
+SIGS = (10, 12, 1, 15, 17, 23, 28)
+
+
+def gen_c08_handles(rng):
+    """timer handles: every handle variable keeps its value for ever, so old handles are poked (del /
+    running) after the timer fired, was deleted, and after its slot was re-used by later timers -
+    from outside and from inside callbacks.  random() is steered forward only (`nonce V`), so check
+    values stay fresh (the assumption of the property)."""
+    ops = []
+    nid = [1]
+    nh = [0]
+    old = []             # handle variables assigned so far
+    nonce = 0
+
+    def fresh():
+        nid[0] += 1
+        return nid[0] - 1
+
+    def new_h():
+        nh[0] += 1
+        return nh[0] - 1
+
+    if rng.random() < 0.4:
+        nonce = rng.choice([rng.randint(1, 2 ** 31 - 100000), 2 ** 31 - 100000, 2 ** 16, 2 ** 24 - 3])
+        ops.append("nonce %d" % nonce)
+
+    def poke(h=None):
+        h = rng.choice(old) if h is None and old else (h if h is not None else rng.randint(0, 5))
+        return "timer_del %d" % h if rng.random() < 0.7 else "timer_running %d" % h
+
+    def add_timer(depth=0):
+        p = rng.choice([HIGH, MED, LOW])
+        i = fresh()
+        h = new_h() if nh[0] < 200 and (not old or rng.random() < 0.8) else rng.choice(old)
+        ns = rng.choice([0, 0, 0, TICK, 3 * TICK, 1000 * TICK])
+        out = []
+        if depth < 2 and rng.random() < 0.45:
+            body = []
+            for _ in range(rng.choice([1, 1, 2, 3])):
+                r = rng.random()
+                if r < 0.3:
+                    body.append(poke(h))                      # its own handle, from inside its callback
+                elif r < 0.6:
+                    body.append(poke())
+                elif r < 0.9:
+                    sub = add_timer(depth + 1)
+                    for o in sub:
+                        (ops if o.startswith("script ") else body).append(o)
+                else:
+                    body.append("advance %d" % TICK)
+            times = "times=%d " % rng.randint(1, 2) if rng.random() < 0.6 else ""
+            out.append("script %d %s%s ; ret 0" % (i, times, " ; ".join(body[:10])))
+        out.append("timer_add %d %d %d %d" % (p, ns, h, i))
+        if h not in old:
+            old.append(h)
+        return out
+
+    for _ in range(rng.randint(8, 40)):
+        r = rng.random()
+        if r < 0.40:
+            ops += add_timer()
+        elif r < 0.60:
+            ops.append(poke())
+        elif r < 0.70 and old:
+            # the episode the property names: delete (or let fire), re-use the slot, poke the old handle
+            h = rng.choice(old)
+            ops.append("timer_del %d" % h)
+            ops += add_timer()
+            ops.append(poke(h))
+        elif r < 0.74:
+            nonce = rng.randint(1, 2 ** 31 - 100000)
+            ops.append("nonce %d" % nonce)
+        else:
+            ops.append("advance %d" % (TICK * rng.choice([1, 1, 3, 1000])))
+            ops.append("iterate")
+    for _ in range(rng.randint(2, 8)):
+        ops.append("advance %d" % (TICK * rng.choice([1, 3, 1000])))
+        if old and rng.random() < 0.5:
+            ops.append(poke())
+        ops.append("iterate")
+    return ops
+
+
+def gen_c08_queued(rng):
+    """items of all four kinds queued together (mostly on one level), callbacks at the front of the
+    queue delete the ones behind them, themselves, or re-add; more deletions from outside while
+    the rest is still queued; then the loop is left alone so that every survivor must run."""
+    ops = []
+    nid = [1]
+    nth = [0]
+    nsh = [0]
+    nfd = [100]
+    alive = []          # records: dict(kind, id, lv, del)
+
+    def fresh():
+        nid[0] += 1
+        return nid[0] - 1
+
+    def new_item(lv, kind=None):
+        kind = kind or rng.choice(["job", "job", "timer", "fd", "fd", "sig"])
+        i = fresh()
+        if kind == "job":
+            return {"kind": kind, "id": i, "lv": lv, "add": ["job_add %d %d" % (lv, i)], "del": "job_del %d %d" % (lv, i)}
+        if kind == "timer" and nth[0] < 250:
+            h = nth[0]
+            nth[0] += 1
+            return {"kind": kind, "id": i, "lv": lv, "add": ["timer_add %d 0 %d %d" % (lv, h, i)], "del": "timer_del %d" % h}
+        if kind == "fd" and nfd[0] < 160:
+            fd = nfd[0]
+            nfd[0] += 1
+            return {"kind": kind, "id": i, "lv": lv, "fd": fd, "add": ["open %d" % fd, "poll_add %d %d 1 %d" % (lv, fd, i)],
+                    "del": "poll_del %d" % fd}
+        if kind == "sig" and nsh[0] < 250:
+            h = nsh[0]
+            nsh[0] += 1
+            sg = rng.choice(SIGS)
+            return {"kind": kind, "id": i, "lv": lv, "sig": sg, "h": h, "add": ["sig_add %d %d %d %d" % (lv, sg, h, i)],
+                    "del": "sig_del %d" % h}
+        return new_item(lv, "job")
+
+    for rnd in range(rng.randint(1, 3)):
+        p = rng.choice([HIGH, MED, LOW, LOW])
+        batch = []
+        for _ in range(rng.randint(2, 10)):
+            lv = p if rng.random() < 0.8 else rng.choice([HIGH, MED, LOW])
+            batch.append(new_item(lv))
+        pool = alive + batch
+        # scripts: deletions of other items / of itself, re-adds
+        for it in batch:
+            if rng.random() < 0.55:
+                body = []
+                selfdel = False
+                for _ in range(rng.choice([1, 1, 2, 3, 4])):
+                    r = rng.random()
+                    if r < 0.35:
+                        body.append(it["del"])
+                        selfdel = True
+                    elif r < 0.85:
+                        body.append(rng.choice(pool)["del"])
+                    elif r < 0.93:
+                        n = new_item(rng.choice([p, it["lv"]]), "job")
+                        pool.append(n)
+                        body += n["add"]
+                    else:
+                        body.append("stop")
+                ret = 0
+                if it["kind"] == "fd" and rng.random() < 0.25:
+                    ret = -1
+                if it["kind"] == "sig" and not selfdel and rng.random() < 0.25 and not any(
+                        b.startswith("sig_del") for b in body):
+                    ret = 1
+                times = "times=1 " if rng.random() < 0.3 else ""
+                ops.append("script %d %s%s ; ret %d" % (it["id"], times, " ; ".join(body), ret))
+        order = batch[:]
+        rng.shuffle(order)
+        for it in order:
+            ops += it["add"]
+        sigs = [it for it in batch if it["kind"] == "sig"]
+        for it in sigs:
+            ops += ["signal %d" % it["sig"]] * rng.choice([1, 1, 2])
+        alive = pool
+        ops.append("advance %d" % TICK)
+        for t in range(rng.randint(1, 5)):
+            ready = [it["fd"] for it in alive if it["kind"] == "fd" and rng.random() < 0.8]
+            rng.shuffle(ready)
+            ops.append("iterate" + "".join(" %d:1" % fd for fd in ready[:10]))
+            if rng.random() < 0.4:
+                for _ in range(rng.randint(1, 3)):
+                    ops.append(rng.choice(alive)["del"])         # from outside, while the rest is still queued
+            if rng.random() < 0.2:
+                ops.append("advance %d" % TICK)
+    for t in range(rng.randint(4, 9)):
         ops.append("iterate")
     return ops
